@@ -114,7 +114,11 @@ def armodel_residual(params, inputs, sim_mean=None, sim_ini=None):
     has_c_module("stat")
 
     if sim_mean is None:
-        sim_mean = np.nanmean(inputs).astype(np.float64)
+        # no mean can be computed from an empty or all nan series
+        if np.all(np.isnan(inputs)):
+            sim_mean = np.float64(0.)
+        else:
+            sim_mean = np.nanmean(inputs).astype(np.float64)
     else:
         sim_mean = np.float64(sim_mean)
 
